@@ -202,7 +202,7 @@ def only_duplicates_skipped(ctx, rule, fn_path=SM):
     dup_edges = []
     for d in range(len(body.blocks)):
         t = body.blocks[d]["term"]
-        if t["k"] == "switch" and q.shape(body.expr_of_operand(t["discr"]), roles) == "PartialEq::eq(Option::Some{0:token},Option::as_ref(SourceMap::get_token(arg1,Sub(idx,1))))":
+        if t["k"] == "switch" and q.shape(body.expr_of_operand(t["discr"]), roles) == q.eqs("eq", "Option::Some{0:token}", "Option::as_ref(SourceMap::get_token(arg1,Sub(idx,1)))"):
             dup_edges.append((d, t["otherwise"]))
     ctx.check(len(dup_edges) == 1, rule, fn, "dup-test", "the duplicate test compares the whole token with its predecessor get_token(idx - 1)")
     # remove emission block and dup-true edge: the loop head must be unreachable from the body entry
@@ -226,7 +226,7 @@ def only_duplicates_skipped(ctx, rule, fn_path=SM):
         ctx.check(same_line, rule, fn, "dup:same-line", "the duplicate test is made only against a predecessor on the same line", ctx.site(body, d))
         ctx.check(has_fact(body, d, roles, ("Lt", "0", "idx")), rule, fn, "dup:idx>0", "... and only when a predecessor exists", ctx.site(body, d))
     teq = ctx.body("<types::Token<'_> as core::cmp::PartialEq>::eq")
-    ok = any(q.shape(teq.expr_of_call(t)) == "PartialEq::eq(arg1.raw,arg2.raw)" for bi, t in teq.calls())
+    ok = any(q.shape(teq.expr_of_call(t)) == q.eqs("eq", "arg1.raw", "arg2.raw") for bi, t in teq.calls())
     ctx.check(ok, rule, teq.path, "token-eq", "Token equality compares the whole RawToken")
     raw_eq = [b for b in ctx.facts.bodies if b.impl_self == "types::RawToken" and b.impl_trait == "core::cmp::PartialEq" and b.promoted is None]
     adt = ctx.facts.adts.get("types::RawToken")
